@@ -79,6 +79,11 @@ claim("C10", "dominance gates on Prepare's accepting return, error-propagation p
       "that every error obtained in the prepare path is tested and propagated, that each tag maps to its dependency kind, that only the tabled prepare functions build the graph, and that missing required / incompatible inputs are errors (C10.R0-R4). "
       "Correctness of Expression.Dependencies/Type, HasCycles and ValidateCompatibility is not decided.", NOTE)
 
+claim("C13", "value-flow rules on the per-item goroutine (captured index/item identity, index-addressed stores), dominance rules on the semaphore, shape rules on the assembled outputs",
+      "Decides that results are index-addressed by the item's own range index into a preallocated slice (never appended), that the semaphore has the received parallelism as capacity, is acquired before and released after the sub-run, "
+      "that the step reports error exactly when the error map is non-empty with index-keyed messages and results, that every item is validated before hand-over, and that shared result variables are locked / read after Wait (C13.R1-R5, with C08.R5). "
+      "Non-interference between concurrent item runs and the run-time concurrency high-water mark are not decided.", NOTE)
+
 ALL = ["C%02d" % i for i in range(1, 21)]
 for pid in ALL:
     if pid not in P:
